@@ -11,15 +11,15 @@ import vlib
 # hook events is then a tool error (the fit.reach clause would silently be skipped otherwise)
 HOOK_REQUIRED = True
 
-MODEL = {"quick": [dict(MaxN=3, MaxV=2, MaxK=2, MaxD=1, Mws="{8}", Mwl="{4, 8}", Mid="{10, 300000}")],
-         "thorough": [dict(MaxN=4, MaxV=2, MaxK=2, MaxD=1, Mws="{8, 12}", Mwl="{2, 4, 8}", Mid="{10, 300000}"),
+MODEL = {"quick": [dict(MaxN=3, MaxV=2, MaxK=2, MaxD=1, Mws="{8, 10}", Mwl="{4, 5}", Mid="{10, 250000}")],
+         "thorough": [dict(MaxN=4, MaxV=2, MaxK=2, MaxD=1, Mws="{8, 10, 13}", Mwl="{2, 4, 5, 8}", Mid="{10, 250000}"),
                       dict(MaxN=4, MaxV=1, MaxK=2, MaxD=2, Mws="{8}", Mwl="{4, 8}", Mid="{10}")]}
 INVS = ["InvWellFormed", "InvDepth", "InvClauses", "InvFitReach", "InvConvAgree", "InvLabels", "InvDecNonNeg"]
 ACTIONS = ["Grow", "Prune"]
 LN_INVS = ["LnOne6", "LnStep6", "LnProduct6", "LnMono6", "LnElem6", "LnAnchors6"]
 TRACE_CONST = dict(MaxN=0, MaxV=0, MaxK=0, MaxD=0, Mws="{}", Mwl="{}", Mid="{}")
 
-ALLP = "{0, 1, 2, 3, 4, 5, 6, 7}"
+ALLP = "{0, 1, 2, 3, 4, 5, 6, 7, 8, 9, 10, 11, 12, 13}"     # 8..13: fractional (dyadic) thresholds
 ALLD = "{9, 0, 1, 2}"      # 9 = None
 
 
@@ -33,14 +33,17 @@ def G(dim, minn, maxn, maxv, maxk, mod, per, sel=0, big=False, profiles=ALLP, de
 # (name, generator constants, exhaustive?)
 GEN = {
     "quick": [
-        # complete sub-domain: n <= 3 points on 0..2, 2 classes, default / min-leaf-2 profiles, depth None / 1
-        ("d1-small", G(1, 1, 3, 2, 2, 1, 0, profiles="{1, 3}", depths="{9, 1}"), True),
+        # complete sub-domain: n <= 3 points on 0..2, 2 classes, default / min-leaf-2 / min-split-2.5 profiles, depth None / 1
+        ("d1-small", G(1, 1, 3, 2, 2, 1, 0, profiles="{1, 3, 8}", depths="{9, 1}"), True),
+        # fractional minima on n = 3..4: a node / side holds exactly floor(threshold) samples / weight
+        ("d1-frac", G(1, 3, 4, 3, 2, 1, 2, profiles="{8, 9, 10, 11, 12, 13}", depths="{9, 2}"), False),
         ("d1", G(1, 4, 6, 3, 3, 13, 2, depths="{9, 1, 2, 3}"), False),   # 13034 datasets / 13, 2 combinations each
         ("d2", G(2, 4, 5, 2, 3, 60, 2, depths="{9, 1, 2, 3}"), False),   # 59697 datasets / 60, 2 combinations each
         ("f32-neighbours", G(1, 2, 3, 2, 2, 1, 12, big=True, profiles="{1, 3}", depths="{9, 1, 2}"), False),
     ],
     "thorough": [
-        ("d1-small", G(1, 1, 3, 2, 3, 1, 0), True),
+        ("d1-small", G(1, 1, 3, 2, 3, 1, 0, profiles="{0, 1, 2, 3, 4, 5, 6, 7}"), True),
+        ("d1-frac", G(1, 2, 4, 3, 2, 1, 12, profiles="{8, 9, 10, 11, 12, 13}", depths="{9, 1, 2}"), False),
         ("d1", G(1, 4, 5, 3, 3, 1, 5), False),
         ("d1-n6", G(1, 6, 6, 3, 3, 2, 2, depths="{9, 1, 2, 3}"), False),
         ("d2", G(2, 2, 4, 2, 3, 1, 2), False),
@@ -50,7 +53,8 @@ GEN = {
 }
 
 PROFILES = [(8, 0, 10), (8, 4, 10), (12, 4, 10), (8, 8, 10), (8, 4, 200000), (4, 2, 10), (16, 6, 100000), (8, 10, 10),
-            (20, 12, 10), (8, 4, 20000), (40, 16, 10), (8, 3, 1000)]
+            (20, 12, 10), (8, 4, 20000), (40, 16, 10), (8, 3, 1000),
+            (10, 4, 10), (13, 5, 125000), (6, 6, 10), (14, 3, 250000), (9, 9, 10), (17, 4, 375000), (22, 11, 62500), (34, 7, 10)]
 
 
 def random_cases(ctx, count):
